@@ -77,6 +77,25 @@ func dsFirstReturn(b ast.Node) string {
 	return res
 }
 
+// dsVarInit returns the text of the initial value of `var name = …` inside body.
+func dsVarInit(b ast.Node, name string) string {
+	res := "unknown"
+	if b == nil {
+		return res
+	}
+	ast.Inspect(b, func(n ast.Node) bool {
+		if vs, ok := n.(*ast.ValueSpec); ok {
+			for i, id := range vs.Names {
+				if id.Name == name && i < len(vs.Values) {
+					res = text(vs.Values[i])
+				}
+			}
+		}
+		return true
+	})
+	return res
+}
+
 // dsIfConds lists every if-condition in body, in source order.
 func dsIfConds(b ast.Node) []string {
 	var r []string
@@ -100,7 +119,11 @@ func factsDownsample() {
 
 	d := parse("pkg/compact/downsample/downsample.go")
 	emitStr("dsCurrentWindow", "downsample.go currentWindow: the returned expression", dsFirstReturn(body(fn(d, "", "currentWindow"))))
+	cw := body(fn(d, "", "currentWindow"))
+	emitStr("dsCurrentWindowRem", "downsample.go currentWindow: the remainder m", dsAssignRHS(cw, "m"))
+	emitList("dsCurrentWindowConds", "downsample.go currentWindow: if-conditions (the shift of a negative remainder)", dsIfConds(cw))
 	db := body(fn(d, "", "downsampleBatch"))
+	emitStr("dsBatchNextTInit", "downsample.go downsampleBatch: initial value of nextT (no window started yet)", dsVarInit(db, "nextT"))
 	emitList("dsBatchConds", "downsample.go downsampleBatch: if-conditions in source order (new window / emit previous window / final emit)", dsIfConds(db))
 	emitStr("dsBatchNextT", "downsample.go downsampleBatch: how the next emission timestamp is chosen", dsAssignRHS(db, "nextT"))
 	rl := body(fn(d, "", "downsampleRawLoop"))
